@@ -36,7 +36,7 @@ func init() {
 		Batches:     func(tier string) int { return 16 },
 		Parallel:    func(tier string) int { return 8 },
 		Require: func(tier string) map[string]int64 {
-			return map[string]int64{"histories": 100, "calls_recorded": 8000, "effectful_replayed": 3000, "reads_placed": 2000, "porcupine_ok": 300, "transactions_committed": 200, "snapshot_reads_checked": 300,
+			return map[string]int64{"histories": 100, "calls_recorded": 8000, "effectful_replayed": 3000, "reads_placed": 2000, "porcupine_ok": 150, "transactions_committed": 200, "snapshot_reads_checked": 300,
 				"overlapping_pairs": 5000, "hammer_increments": 3000, "queue_jobs": 1000, "transactions_ending_with_a_noop": 500, "hook_events": 20000}
 		},
 		WorkerTimeoutSec: func(tier string) int {
